@@ -44,7 +44,8 @@ thread_local! {
         let (tx, rx) = spsc::bounded(10240);
         #[cfg(fastrace_verif)]
         let (tx, rx) = {
-            let _: (Sender<CollectCommand>, Receiver<CollectCommand>) = (tx, rx);
+            let unused: (Sender<CollectCommand>, Receiver<CollectCommand>) = (tx, rx);
+            crate::verif::without_yield(move || drop(unused));
             spsc::bounded(crate::verif::ring_capacity())
         };
         register_receiver(rx);
